@@ -25,6 +25,9 @@ Ties:
   D(prod)     Linear.ProdJvp (three-case tangent = product rule, proved) against jax.jvp(jnp.prod) on integer slices.
   Inventory   every plugin registering a HAND-WRITTEN jvp/transpose rule (AST scan, gen/GenAutodiff.v) has a boundary program family
               here (grad/jvp/vjp/vmap-of-grad on the case splits of its rule); derived/forwarded rules are JAX's own.
+  D(reduce2)  the REAL register_reduction_batch_rule closures (jnp.sum/max/min/amax/amin/any/all) against Batch.reduction_batch_rule
+              (axis lists, None, keepdims both ways, every batch dim); register_jvp_via_jax_jvp AST-tied to `jax.jvp of the original`.
+  Second order: grad.grad, jacfwd.grad, jvp.jvp, vmap.grad.grad, mixed partials and gradient penalties through derived-rule primitives.
 Exploration + search (the property on the real code): T(f) for ~30 functions f and ~20 transformations T is
 exported with the real to_onnx, run with onnxruntime and compared with T(f) evaluated by JAX."""
 import ast
@@ -381,6 +384,143 @@ def tie_reduction_rules(ctx):
                     {"kind": "reduction", "rule": p[0], "x_shape": list(p[1]), "bdim": int(p[2]), "axes": [int(a) for a in p[3]]})
 
 
+def _rkz_np(a, axis=None, keepdims=False, **_kw):
+    """Batch.rkz on an array: sum over the fiber along the reduced axes (ascending) of (1 + ravel(sub)) * a[sub]"""
+    import jax.numpy as jnp
+    a = jnp.asarray(a)
+    if axis is None:
+        axes = list(range(a.ndim))
+    elif isinstance(axis, (tuple, list)):
+        axes = sorted(int(x) % a.ndim for x in axis)
+    else:
+        axes = [int(axis) % a.ndim]
+    rest = [i for i in range(a.ndim) if i not in axes]
+    moved = jnp.transpose(a, rest + axes)
+    F = 1
+    for x in axes:
+        F *= a.shape[x]
+    flatf = moved.reshape(tuple(a.shape[i] for i in rest) + (F,))
+    out = jnp.sum(flatf * jnp.arange(1, F + 1, dtype=a.dtype), axis=-1)
+    if keepdims:
+        out = out.reshape([1 if i in axes else a.shape[i] for i in range(a.ndim)])
+    return out
+
+
+def tie_reduction_keepdims_rule(ctx):
+    """the REAL rule registered by register_reduction_batch_rule for jnp.sum/max/min/amax/amin/any/all (original jnp function replaced by
+    the integer kernel Batch.rkz) against Batch.reduction_batch_rule inside Coq: output shape, batch dim, values, for keepdims both ways"""
+    import importlib
+    import jax.numpy as jnp
+    from jax._src.interpreters import batching as jb
+    rng = ctx.rng
+    names = ["sum", "max", "min", "amax", "amin", "any", "all"]
+    prims = {}
+    for nm in names:
+        mod = importlib.import_module(f"jax2onnx.plugins.jax.numpy.{nm}")
+        cls = [v for v in vars(mod).values() if isinstance(v, type) and getattr(v, "_FUNC_NAME", None) == nm and hasattr(v, "_PRIM")]
+        if not cls or jb.fancy_primitive_batchers.get(cls[0]._PRIM) is None:
+            ctx.oblige(f"tie:reduction-batch-rule-registered(jnp.{nm})", False, "tie", "no plugin class / batch rule found")
+            return
+        prims[nm] = cls[0]._PRIM
+    n = 28 if ctx.tier == "quick" else 140
+    rows, problems = [], []
+    saved = {}
+    try:
+        for nm, pr in prims.items():
+            slot = f"__orig_impl___{nm}"
+            saved[nm] = (slot, hasattr(pr, slot), getattr(pr, slot, None))
+            setattr(pr, slot, _rkz_np)
+        fixed = [("sum", [2, 3, 2], 1, [0], True), ("max", [3, 3, 3], 1, [0], True), ("all", [3, 3, 3], 2, [0, 1], True),
+                 ("min", [3, 3, 3], 2, [1], True), ("sum", [3, 3], 1, None, True), ("any", [2, 3, 3], 1, [-1], True)]
+        while len(rows) < n:
+            if fixed:
+                nm, full, d, axes, keep = fixed.pop(0)
+            else:
+                nm = names[len(rows) % len(names)]
+                r = rng.randint(1, 3)
+                m = rng.choice([2, 3])
+                pes = [m if rng.random() < 0.6 else rng.choice([1, 2, 3]) for _ in range(r)]
+                d = rng.randint(0, r)
+                full = list(pes)
+                full.insert(d, m if rng.random() < 0.6 else rng.choice([1, 2, 3]))
+                keep = rng.random() < 0.6
+                if rng.random() < 0.15:
+                    axes = None
+                else:
+                    axes = sorted(rng.sample(range(r), rng.randint(1, r)))
+                    axes = [a - r if rng.random() < 0.3 else a for a in axes]
+            x = np.asarray([rng.randint(0, 9) for _ in range(int(np.prod(full)))], dtype=np.int32).reshape(full)
+            B = full[d]
+            ref = np.stack([np.asarray(_rkz_np(np.take(x, b, axis=d), None if axes is None else tuple(axes), keep)) for b in range(B)])
+            rule = jb.fancy_primitive_batchers[prims[nm]]
+            try:
+                out, od = rule(None, (jnp.asarray(x),), (d,), axes=None if axes is None else tuple(int(a) for a in axes),
+                               axes_is_tuple=axes is not None, keepdims=keep)
+                out = np.asarray(out)
+                real = (list(out.shape), int(od), [int(v) for v in out.reshape(-1)])
+                if not (out.ndim > od and np.moveaxis(out, od, 0).shape == ref.shape and np.array_equal(np.moveaxis(out, od, 0), ref)):
+                    problems.append((nm, full, d, axes, keep, list(np.moveaxis(out, od, 0).shape) if out.ndim > od else list(out.shape), list(ref.shape)))
+            except Exception as e:
+                real = None
+                problems.append((nm, full, d, axes, keep, "raises " + type(e).__name__ + ": " + str(e)[:80], list(ref.shape)))
+            rows.append((nm, full, d, axes, keep, x, real, ref))
+    finally:
+        for nm, (slot, had, val) in saved.items():
+            if had:
+                setattr(prims[nm], slot, val)
+            elif hasattr(prims[nm], slot):
+                delattr(prims[nm], slot)
+    hdr = common.CASES_HEADER + "From J2O Require Import Tensor Batch.\n"
+    hdr += ("Definition zl_eqb := list_eqb Z.eqb.\n"
+            "Record kcase := mkK { sx : list nat; dx : nat; axes : option (list Z); keep : bool; datx : list Z;\n"
+            "  rshape_ : list nat; rod : nat; rflat : list Z; refshape : list nat; refflat : list Z }.\n"
+            "Definition model_ok (c : kcase) : bool :=\n"
+            "  let '(r, od) := reduction_batch_rule rkz (axes c) (keep c) (of_flat (sx c) (datx c)) (dx c) in\n"
+            "  nat_list_eqb (shape r) (rshape_ c) && Nat.eqb od (rod c) && zl_eqb (flat r) (rflat c).\n"
+            "Definition spec_ok (c : kcase) : bool :=\n"
+            "  let v := vmap_spec1 (reduce_axes rkz (axes c) (keep c)) (of_flat (sx c) (datx c)) (dx c) in\n"
+            "  nat_list_eqb (shape v) (refshape c) && zl_eqb (flat v) (refflat c).\n")
+
+    def render(chunk, off):
+        items = []
+        for (nm, full, d, axes, keep, x, real, ref) in chunk:
+            rs, rd, rf = real if real is not None else ([], 0, [])
+            ax = "None" if axes is None else f"(Some {_zl(axes)})"
+            items.append(f"mkK {_natlist(full)} {int(d)}%nat {ax} {common.blit(keep)} {_zl(x.reshape(-1))} "
+                         f"{_natlist(rs)} {rd}%nat {_zl(rf)} {_natlist(ref.shape)} {_zl(ref.reshape(-1))}")
+        return ("Definition cs : list kcase := [" + ";\n ".join(items) + "].\n"
+                "Eval vm_compute in bad_idx_ model_ok 0%nat cs.\nEval vm_compute in bad_idx_ spec_ok 0%nat cs.\n")
+    res = common.coq_eval_batches(ctx, "c10_redkeep", hdr, rows, render, per_file=50)
+    bad_model, bad_spec, broke = [], [], None
+    for k, (ok, out) in enumerate(res):
+        lists = re.findall(r"=\s*(\[[^\]]*\]|nil)\s*:\s*list nat", out.replace("\n", " "))
+        if not ok or len(lists) != 2:
+            broke = out[-1200:]
+            continue
+        for tgt, l in zip((bad_model, bad_spec), lists):
+            if l not in ("nil", "[]"):
+                tgt += [k * 50 + int(v.replace("%nat", "")) for v in l.strip("[]").split(";") if v.strip()]
+    desc = lambda i: {"prim": rows[i][0], "x_shape": rows[i][1], "bdim": rows[i][2], "axes": rows[i][3], "keepdims": rows[i][4],
+                      "real": None if rows[i][6] is None else rows[i][6][:2]}
+    ctx.oblige(f"tie:reduction_batch_rule-model-equals-real-register_reduction_batch_rule({len(rows)} cases, 7 primitives)",
+               broke is None and not bad_model, "tie",
+               broke or ("" if not bad_model else f"model and implementation differ on {[desc(i) for i in bad_model[:4]]}"))
+    ctx.oblige(f"tie:reduce_axes-spec-equals-numpy-stack-of-examples({len(rows)} cases)", broke is None and not bad_spec, "tie",
+               broke or ("" if not bad_spec else f"differ on {[desc(i) for i in bad_spec[:4]]}"))
+    ctx.oblige(f"tie:real-shared-reduction-batch-rule-is-vmap-on-all-generated-cases({len(rows)})", not problems, "tie", str(problems[:3]))
+    ctx.coverage["reduction_keepdims_cases"] = {"total": len(rows), "keepdims": sum(1 for r_ in rows if r_[4]),
+                                                "batch_dim_not_front": sum(1 for r_ in rows if r_[2] != 0),
+                                                "reduced_axis_in_front_of_batch_dim_with_keepdims": sum(
+                                                    1 for r_ in rows if r_[4] and (r_[3] is None or any((a % (len(r_[1]) - 1)) < r_[2] for a in r_[3])))}
+    if problems:
+        p = problems[0]
+        ctx.violate(f"reduction-batch-rule:shared:{p[0]}",
+                    f"the shared vmap rule of jnp.{p[0]} (register_reduction_batch_rule) is not vmap: operand shape {p[1]} mapped along axis {p[2]}, "
+                    f"axes={p[3]}, keepdims={p[4]}: {p[5]} where the stack of per-example results has shape {p[6]}",
+                    {"kind": "reduction_keepdims", "prim": p[0], "x_shape": list(p[1]), "bdim": int(p[2]),
+                     "axes": None if p[3] is None else [int(a) for a in p[3]], "keepdims": bool(p[4])})
+
+
 # ===================================================================== tie D: inlining
 INLINE_SHAPE = [
     "for const_var, const_val in zip(inner_jaxpr.constvars, consts):\n    ctx.bind_const_for_var(const_var, np.asarray(const_val))",
@@ -556,6 +696,13 @@ def _functions():
     reg("logsumexp", lambda x: jax.nn.logsumexp(x, axis=-1), [(3, 4)])
     reg("uses_inner_jit_twice", lambda x: inner_jit(x) + inner_jit(x * 0.5), [(4,)])
     reg("cumsum_prod", lambda x: jnp.cumsum(x) * jnp.prod(x), [(4,)])
+    # reductions with keepdims over square extents (shared register_reduction_batch_rule): a wrong output batch dim is silent
+    reg("sum_keep0", lambda x: jnp.sum(x, axis=0, keepdims=True), [(3, 3)])
+    reg("max_keep0", lambda x: jnp.max(x, axis=0, keepdims=True), [(3, 3)])
+    reg("min_keep01", lambda x: jnp.min(x, axis=(0, 1), keepdims=True) * x[0], [(3, 3, 3)])
+    reg("any_keep0", lambda x: jnp.where(jnp.any(x > 0.5, axis=0, keepdims=True), x, -x), [(3, 3)])
+    reg("all_keep1", lambda x: jnp.where(jnp.all(x > -1.0, axis=1, keepdims=True), x, -x), [(3, 3)])
+    reg("amax_nokeep", lambda x: jnp.amax(x, axis=0) - jnp.amin(x, axis=1), [(3, 3)])
     # ---- binary (mixed ranks: the second operand is the higher-rank / the weight)
     reg("add_mixed", lambda x, y: jnp.add(x, y), [(3,), (3, 3)])
     reg("mul_mixed", lambda x, y: jnp.multiply(x, y), [(3,), (2, 3)])
@@ -613,6 +760,10 @@ def _transforms(name, spec):
     if n == 1:
         if len(shapes[0]) >= 1:
             T.append(("vmap1", jax.vmap(f, in_axes=1), [sh_ins(shapes[0], 1)]))
+            T.append(("vmap-1", jax.vmap(f, in_axes=-1), [sh_ins(shapes[0], len(shapes[0]))]))
+        if len(shapes[0]) >= 2:
+            T.append(("vmap2", jax.vmap(f, in_axes=2), [sh_ins(shapes[0], 2)]))
+            T.append(("vmap1_out1", jax.vmap(f, in_axes=1, out_axes=1), [sh_ins(shapes[0], 1)]))
         T.append(("vmap_vmap", jax.vmap(jax.vmap(f)), [(2,) + sh_ins(shapes[0], 0)]))
     if n == 2:
         T.append(("vmap(0,None)", jax.vmap(f, in_axes=(0, None)), [sh_ins(shapes[0], 0), shapes[1]]))
@@ -662,9 +813,9 @@ def _transforms(name, spec):
     return T
 
 
-T_PRIORITY = ["vmap0", "vmap(0,None)", "vmap(None,0)", "vmap(1,0)", "vmap(0,1)", "vmap1", "vmap0_out1", "grad", "vjp", "jvp", "jit", "nested_jit",
+T_PRIORITY = ["vmap0", "vmap(0,None)", "vmap(None,0)", "vmap(1,0)", "vmap(0,1)", "vmap1", "vmap-1", "vmap0_out1", "grad", "vjp", "jvp", "jit", "nested_jit",
               "custom_jvp", "custom_vjp", "checkpoint", "value_and_grad", "grad_of_custom_vjp"]
-QUICK_T = {"vmap0", "vmap(0,None)", "vmap(None,0)", "vmap(1,0)", "vmap(0,1)", "vmap1", "vmap0_out1", "jit", "nested_jit", "grad",
+QUICK_T = {"vmap0", "vmap(0,None)", "vmap(None,0)", "vmap(1,0)", "vmap(0,1)", "vmap1", "vmap-1", "vmap0_out1", "jit", "nested_jit", "grad",
            "jvp", "vjp", "checkpoint", "custom_jvp", "custom_vjp", "grad_of_custom_vjp", "value_and_grad"}
 
 
@@ -929,6 +1080,63 @@ def tie_prod_model(ctx):
                                          "with_exactly_one_zero": sum(1 for x, _, _ in items if x.count(0) == 1)}
 
 
+# ===================================================================== second-order programs through DERIVED jvp rules
+def _second_order_programs():
+    """nested differentiation through substitute primitives whose JVP is derived (register_jvp_via_jax_jvp): the outer derivative
+    goes through values the inner one treats as constants (mixed partials, gradient penalty)"""
+    import jax
+    import jax.numpy as jnp
+    x5 = np.asarray([-1.2, -0.4, 0.3, 0.9, 1.6], np.float32)
+    y5 = np.asarray([1.5, 2.0, 0.7, 1.1, 3.0], np.float32)
+    W = np.linspace(-0.8, 0.9, 15, dtype=np.float32).reshape(3, 5)
+    w5 = jnp.asarray([1.0, -2.0, 0.5, 3.0, 1.5], dtype=jnp.float32)
+    H = {
+        "tanh": lambda x: jnp.sum(jnp.tanh(x) * x),
+        "sin_exp": lambda x: jnp.sum(jnp.sin(x) * jnp.exp(0.5 * x)),
+        "log_sqrt": lambda x: jnp.sum(jnp.log(x * x + 1.0) * jnp.sqrt(x * x + 0.5)),
+        "power": lambda x: jnp.sum(jnp.power(jnp.abs(x) + 1.0, 2.5)),
+        "logsumexp": lambda x: jax.nn.logsumexp(x * x),
+        "square_cos": lambda x: jnp.sum(jnp.square(jnp.cos(x)) / (1.0 + jnp.square(x))),
+    }
+    P = []
+    for nm, h in H.items():
+        g = jax.grad(h)
+        P.append((f"grad_grad:{nm}", jax.grad(lambda x, g=g: jnp.sum(g(x) * w5)), [x5]))
+        P.append((f"jacfwd_grad:{nm}", jax.jacfwd(g), [x5]))
+        P.append((f"jvp_jvp:{nm}", lambda x, t, h=h: jax.jvp(lambda u: jax.jvp(h, (u,), (t,))[1], (x,), (t * 0.5 + 1.0,)), [x5, y5]))
+        P.append((f"vmap_grad_grad:{nm}", jax.vmap(jax.grad(lambda x, g=g: jnp.sum(g(x) * w5))), [np.stack([x5, x5[::-1], y5])]))
+    # mixed partials: d/dy of (d/dx f(x, y)) . w
+    F2 = {
+        "xsq_over_y": lambda x, y: jnp.sum(jnp.divide(jnp.multiply(x, x), y)),
+        "x_times_tanh_y": lambda x, y: jnp.sum(jnp.multiply(x, jnp.tanh(y)) + jnp.sin(x) * y),
+        "matvec_tanh": lambda Wm, x: jnp.sum(jnp.tanh(jnp.matmul(Wm, x))),
+        "maximum_mix": lambda x, y: jnp.sum(jnp.maximum(x * y, x + y) * x),
+    }
+    for nm, f in F2.items():
+        a0, a1 = (W, x5) if nm == "matvec_tanh" else (x5, y5)
+        inner = jax.grad(f, argnums=1 if nm == "matvec_tanh" else 0)            # d/dx (the second argument for matvec)
+        outer_arg = 0 if nm == "matvec_tanh" else 1                            # then d/dW resp. d/dy
+        P.append((f"mixed_partial:{nm}", jax.grad(lambda a, b, inner=inner: jnp.sum(inner(a, b) * w5), argnums=outer_arg), [a0, a1]))
+        P.append((f"gradient_penalty:{nm}", jax.grad(lambda a, b, inner=inner: jnp.sum(inner(a, b) ** 2), argnums=outer_arg), [a0, a1]))
+    return P
+
+
+def explore_second_order(ctx):
+    stats = {"ok": 0, "mismatch": 0, "reject": 0, "ref_error": 0}
+    rej = []
+    for (name, fn, ins) in _second_order_programs():
+        res, detail = _run_one(fn, None, None, ins=ins)
+        stats[res] += 1
+        if res == "reject":
+            rej.append(f"{name}: {detail[:80]}")
+        if res == "mismatch":
+            ctx.violate(f"second-order:{name}",
+                        f"export of the nested derivative {name} at {[np.asarray(a).tolist() for a in ins][0]} does not compute what JAX computes: {detail}",
+                        {"kind": "second", "name": name})
+    ctx.coverage.update({"second_order_exports": sum(stats.values()), "second_order_results": stats, "second_order_rejections": rej[:6]})
+    return stats
+
+
 # ===================================================================== exploration: vmap over the testcase registry
 def _registry_selection():
     """registry testcases of the substitute primitives with static float32 inputs (deterministic order)"""
@@ -1046,6 +1254,7 @@ def run(ctx):
     t = time.time()
     tie_batcher(ctx)
     tie_reduction_rules(ctx)
+    tie_reduction_keepdims_rule(ctx)
     tie_inline(ctx)
     tie_linear(ctx)
     tie_prod_model(ctx)
@@ -1057,11 +1266,12 @@ def run(ctx):
     except Exception as e:                         # the inventory failed closed (also reported by translate:GenAutodiff)
         hand = []
         ctx.oblige("tie:rule-inventory", False, "tie", f"{type(e).__name__}: {e}")
-    rule_stats = explore_rules(ctx, 75.0 if ctx.tier == "quick" else 300.0, hand)
+    rule_stats = explore_rules(ctx, 60.0 if ctx.tier == "quick" else 300.0, hand)
+    so_stats = explore_second_order(ctx)
     phases["rules_s"] = round(time.time() - t, 1)
     t = time.time()
     # time budgets are per phase (a loaded machine skips jobs, it never changes a verdict)
-    stats = explore(ctx, 110.0 if ctx.tier == "quick" else 420.0)
+    stats = explore(ctx, 95.0 if ctx.tier == "quick" else 420.0)
     phases["explore_s"] = round(time.time() - t, 1)
     rstats = {}
     if ctx.tier != "quick":
@@ -1072,9 +1282,11 @@ def run(ctx):
     ctx.level = "proof"
     ctx.coverage.update({
         "evaluations": ctx.coverage.get("batcher_cases", 0) + ctx.coverage.get("transform_exports", 0) + ctx.coverage.get("linear_evaluations", 0)
-        + ctx.coverage.get("registry_vmap_testcases", 0) + ctx.coverage.get("rule_boundary_exports", 0),
+        + ctx.coverage.get("registry_vmap_testcases", 0) + ctx.coverage.get("rule_boundary_exports", 0)
+        + ctx.coverage.get("second_order_exports", 0),
         "distinct_nontrivial": ctx.coverage.get("transform_exports", 0) - stats["reject"] - stats["ref_error"]
-        + rstats.get("ok", 0) + rstats.get("mismatch", 0) + rule_stats["ok"] + rule_stats["mismatch"],
+        + rstats.get("ok", 0) + rstats.get("mismatch", 0) + rule_stats["ok"] + rule_stats["mismatch"]
+        + so_stats["ok"] + so_stats["mismatch"],
         "rule": "non-trivial = a (transformation, function) pair that exported and was compared numerically with JAX; batcher cases: generated "
                 "(operand shapes, batch dims) with numpy-compatible per-example shapes, ranks 0..3, incl. rank-deficient batched operands",
         "level_detail": "proof (batch rule, inlining, allow-list linearity) + exploration of T(f) on the real exporter; per-plugin batching/"
@@ -1107,6 +1319,14 @@ def replay(path):
             good = False
             print("real batcher raises", type(e).__name__, e, "-> still violated")
         return 0 if good else 1
+    if r.get("kind") == "second":
+        for (name, fn, ins) in _second_order_programs():
+            if name == r["name"]:
+                res, detail = _run_one(fn, None, None, ins=ins)
+                print(f"{name}: {res} {detail}")
+                return 1 if res == "mismatch" else 0
+        print("program not found")
+        return 2
     if r.get("kind") == "rule":
         F, D = _rule_families()
         cases = [c for c in F.get(r["module"], []) if c[0] == r["case"]] + [v for k, v in D.items() if k == r["module"] and v[0] == r["case"]]
@@ -1118,6 +1338,13 @@ def replay(path):
                     return 1 if res == "mismatch" else 0
         print("rule case not found")
         return 2
+    if r.get("kind") == "reduction_keepdims":
+        c = common.Ctx("C10", "quick", 0)
+        tie_reduction_keepdims_rule(c)
+        badl = [v for v in c.violations if v["key"].startswith("reduction-batch-rule:shared")]
+        print("shared reduction batch rule ->", "still violated: " + badl[0]["what"] if badl else "ok")
+        c.cleanup()
+        return 1 if badl else 0
     if r.get("kind") == "reduction":
         c = common.Ctx("C10", "quick", 0)
         c.rng.seed(0)
